@@ -283,3 +283,28 @@ def selftest(rng, n=24):
             b = float(np.sqrt(((E[:3, 3] - Em[:3, 3]) ** 2).sum())) / nt if nt > 0 else float(np.abs(E[:3, 3]).max())
             worst = max(worst, a, b)
     return worst
+
+
+def ad_matrix(kind, x):
+    """Adjoint representation of the algebra element x: ad(x) y = vee([hat x, hat y])."""
+    n = ALG[kind]
+    x = ld(x)
+    Gx = generator(kind, x)
+    cols = []
+    for i in range(n):
+        e = np.zeros(n, dtype=LD)
+        e[i] = 1
+        Ge = generator(kind, e)
+        cols.append(vee(kind, np.matmul(Gx, Ge) - np.matmul(Ge, Gx)))
+    return np.stack(cols, -1)
+
+
+def left_jacobian(kind, x, terms=60):
+    """Jl(x) = sum_k ad(x)^k / (k+1)!  (longdouble series; |x| moderate)."""
+    A = ad_matrix(kind, x)
+    n = A.shape[-1]
+    I = np.eye(n, dtype=LD)
+    S = I.copy()
+    for k in range(terms, 0, -1):
+        S = I + np.matmul(A, S) / LD(k + 1)
+    return S
